@@ -407,6 +407,37 @@ fn edge_triples(n: usize) -> Vec<Triple> {
     out
 }
 
+/// message length ladder: the verdict at the bound and one above it must not depend on how long the message is
+fn length_triples(n: usize, thorough: bool) -> Vec<Triple> {
+    use rayon::prelude::*;
+    let bound = sig_bound(n);
+    let salt: Vec<u8> = (100u8..140).collect();
+    let top: usize = if thorough { 2100 } else { 520 };
+    let mut lens: Vec<usize> = (0..=top).collect();
+    for k in [12usize, 13, 14, 16, 18] {
+        lens.extend([(1 << k) - 41, (1 << k) - 40, (1 << k) - 1, 1 << k, (1 << k) + 1]);
+    }
+    let sq_at: Vec<Option<Vec<i64>>> = [bound, bound + 1].iter().map(|t| squares(t - 1)).collect();
+    lens.par_iter()
+        .flat_map(|&l| {
+            let msg: Vec<u8> = (0..l).map(|i| (i as u32).wrapping_mul(2654435761).rotate_left(11) as u8).collect();
+            let mut sm = salt.clone();
+            sm.extend_from_slice(&msg);
+            let c = keccak::hash_to_point(&sm, n, None);
+            let mut out = vec![];
+            for (ti, t) in [bound, bound + 1].into_iter().enumerate() {
+                let mut s2 = vec![0i64; n];
+                s2[l % n] = if l % 2 == 0 { 1 } else { -1 };
+                let Some(sq) = sq_at[ti].clone() else { continue };
+                let s1 = sparse(n, &sq, (l + 1) % n);
+                let Some(h) = solve_h(&c, &s1, &s2) else { continue };
+                out.push(Triple { n, msg: msg.clone(), sig: encode_sig(n, &salt, &body_of(n, &s2).unwrap()), pk: keycodec::pk_encode(&h), expect: Some(t <= bound), tag: format!("length:n={},T-bound={};len={}", n, t - bound, l) });
+            }
+            out
+        })
+        .collect()
+}
+
 /// dense short (s1, s2) as an honest signature would have, tuned so the total is exactly T
 fn dense_triples(n: usize) -> Vec<Triple> {
     let bound = sig_bound(n);
@@ -631,6 +662,7 @@ fn one_variant<V: Variant>(ctx: &mut Ctx, tier: Tier) {
     }
     run_triples_g::<V>(ctx, &format!("big_s2_{}", n), "s2 = a X^i with a in {+-6144, +-6145, +-8192, +-12159, +-12160, +-12288, +-12289, 12290, +-24578} (outside the centred range of Z_q), i in {0,1,n/2,n-1}, s1 small: the squared norm is over the decoded integers", big_s2_triples(n), false);
     run_triples::<V>(ctx, &format!("dense_{}", n), "dense short (s1,s2) of honest magnitude tuned to total norm B-1, B, B+1, B/2", dense_triples(n));
+    run_triples::<V>(ctx, &format!("message_length_ladder_{}", n), &format!("messages of every length 0..={} and around 2^12 .. 2^18 (position-dependent content), s2 = +-X^(len mod n), total norm B and B+1", if tier.thorough() { 2100 } else { 520 }), length_triples(n, tier.thorough()));
     run_triples::<V>(ctx, &format!("malformed_{}", n), "otherwise acceptable signature with: negative zero, a set padding bit at each of the next 24 positions and the last bit, unary run of the last / a middle coefficient extended by 1/94/95/256/512, one coefficient short/extra, unterminated last coefficient", malformed_triples(n));
     if tier.thorough() {
         window_triples::<V>(ctx, 32, 12);
